@@ -75,36 +75,37 @@ func (m *Module) Override(name string, value Object) error {
 // Copy returns a module with the same name, code and callable that has
 // attribute tables of its own: Override on the copy leaves the original as it
 // was. Modules that are attributes of the module are shared between the two
-// until they are copied in turn.
+// until they are copied in turn. The builtins that are members of the module
+// are members of the copy as builtins of their own, which name the copy as
+// their module: what a script reaches through a member of the copy is the
+// copy, and not the module it was copied from.
 func (m *Module) Copy() *Module {
+	c := &Module{
+		name:     m.name,
+		code:     m.code,
+		callable: m.callable,
+	}
 	// (a table that the original does not have, the copy does not have either)
-	var builtins map[string]Object
 	if m.builtins != nil {
-		builtins = make(map[string]Object, len(m.builtins))
+		c.builtins = make(map[string]Object, len(m.builtins))
 		for name, value := range m.builtins {
-			builtins[name] = value
+			if builtin, ok := value.(*Builtin); ok && builtin.module == m {
+				value = builtin.inModule(c)
+			}
+			c.builtins[name] = value
 		}
 	}
-	var globals []Object
 	if m.globals != nil {
-		globals = make([]Object, len(m.globals))
-		copy(globals, m.globals)
+		c.globals = make([]Object, len(m.globals))
+		copy(c.globals, m.globals)
 	}
-	var globalsIndex map[string]int
 	if m.globalsIndex != nil {
-		globalsIndex = make(map[string]int, len(m.globalsIndex))
+		c.globalsIndex = make(map[string]int, len(m.globalsIndex))
 		for name, index := range m.globalsIndex {
-			globalsIndex[name] = index
+			c.globalsIndex[name] = index
 		}
 	}
-	return &Module{
-		name:         m.name,
-		code:         m.code,
-		builtins:     builtins,
-		globals:      globals,
-		globalsIndex: globalsIndex,
-		callable:     m.callable,
-	}
+	return c
 }
 
 func (m *Module) Interface() interface{} {
